@@ -103,18 +103,31 @@ def offsets_str(detail):
 
 def run_property(prop, tier, seed, *, clauses_for, n_quick, n_thorough, gen_kw=None, extra_conform=(),
                  design=None, rule="", assumptions=(), classes=None, extra_configs=(), sig_extra=None,
-                 chunk=25, observe=None, generator=None, vacuity_classes=True):
+                 chunk=25, observe=None, generator=None, vacuity_classes=True, parts=None):
     """generic numeric-layer check: generate configurations (seeded), drive the real code,
     validate the lifted observations with FVTraceOps, report."""
     from findings import Report
     rep = Report(prop, tier, seed)
-    n = n_quick if tier == "quick" else n_thorough
     des = design(tier, seed) if design else {"states": 0, "transitions": 0, "configs": []}
-    configs = list(des.get("configs", [])) + list(extra_configs)
-    kws = gen_kw if isinstance(gen_kw, list) else [gen_kw or {}]
-    for j, kw in enumerate(kws):
-        configs += gen_configs(seed * 1000 + j, max(1, n // len(kws)), classes=classes, generator=generator, **kw)
-    episodes = make_episodes(configs, clauses_for, extra_conform, observe=observe)
+
+    def part_episodes(pt, offset):
+        n = pt["n_quick"] if tier == "quick" else pt["n_thorough"]
+        configs = list(pt.get("extra_configs", []))
+        kws = pt.get("gen_kw") if isinstance(pt.get("gen_kw"), list) else [pt.get("gen_kw") or {}]
+        for j, kw in enumerate(kws):
+            configs += gen_configs(seed * 1000 + j + offset, max(1, n // len(kws)), classes=pt.get("classes"),
+                                   generator=pt.get("generator"), **kw)
+        eps = make_episodes(configs, pt["clauses_for"], pt.get("extra_conform", ()), observe=pt.get("observe"))
+        return eps
+    main_part = dict(clauses_for=clauses_for, n_quick=n_quick, n_thorough=n_thorough, gen_kw=gen_kw,
+                     extra_conform=extra_conform, classes=classes, generator=generator, observe=observe,
+                     extra_configs=list(des.get("configs", [])) + list(extra_configs))
+    episodes = []
+    for k, pt in enumerate([main_part] + list(parts or [])):
+        eps = part_episodes(pt, 100 * k)
+        for e in eps:
+            e["id"] = len(episodes)
+            episodes.append(e)
     by_id, tot = validate(episodes, chunk=chunk)
     per_class, per_clause, undecided = {}, {}, {}
     for e in episodes:
